@@ -2039,3 +2039,76 @@ def textual_memo_keys(rep, rule, idx):
                         "is handed the value computed for the first (its shape, its width, its members)", line=st.lineno)
     rep.ok(rule, "-", "memo tables are not keyed by the text of the object they describe", f"{n} keyed store(s) into long-lived tables examined",
            nontrivial=False)
+
+
+def ports_not_rebound(rep, rule, idx):
+    """`wiring.Component.__init__` creates one attribute per member of the signature, and that object *is* the port: its signature and
+    orientation are what `connect()` checks, through the component or directly.  A method that assigns `self.<member> = ...` afterwards
+    (an unwrapped `flipped(self.bus)`, a re-created interface) leaves the component's signature describing an object that is no longer
+    there: the port is oriented or shaped differently from what the signature says."""
+    import ast as _ast
+    n = 0
+    for cls in idx.all_classes():
+        init = cls.method("__init__")
+        if init is None:
+            continue
+        members = set()
+        for x in _ast.walk(init.node):
+            if isinstance(x, _ast.Call) and isinstance(x.func, _ast.Attribute) and x.func.attr == "__init__" and isinstance(x.func.value, _ast.Call) and \
+                    isinstance(x.func.value.func, _ast.Name) and x.func.value.func.id == "super" and x.args and isinstance(x.args[0], _ast.Dict):
+                members |= {k.value for k in x.args[0].keys if isinstance(k, _ast.Constant) and isinstance(k.value, str)}
+        for st in cls.node.body:
+            if isinstance(st, _ast.AnnAssign) and isinstance(st.target, _ast.Name) and isinstance(st.annotation, _ast.Call) and \
+                    _ast.unparse(st.annotation.func) in ("In", "Out"):
+                members.add(st.target.id)
+        if not members:
+            continue
+        n += 1
+        for fs in cls.methods.values():
+            for f in fs:
+                for st in _ast.walk(f.node):
+                    tg = st.targets if isinstance(st, _ast.Assign) else ([st.target] if isinstance(st, (_ast.AugAssign, _ast.AnnAssign)) else [])
+                    for t in tg:
+                        for y in (t.elts if isinstance(t, (_ast.Tuple, _ast.List)) else [t]):
+                            if isinstance(y, _ast.Attribute) and isinstance(y.value, _ast.Name) and y.value.id == "self" and y.attr in members:
+                                rep.bad(rule, f.site, f"{cls.qual}.{y.attr} stays the port object its signature describes",
+                                        f"`{_ast.unparse(st)[:70]}` rebinds the port attribute after the component was constructed: the "
+                                        f"signature of {cls.qual} still declares `{y.attr}` as it was, but the attribute now is another object "
+                                        "(another orientation or shape) -- connect() to it fails or wires it the wrong way round", line=st.lineno)
+    rep.ok(rule, "-", "no component rebinds one of its port attributes", f"{n} component class(es) with declared members examined", nontrivial=n > 0)
+
+
+def low_slice_switch(rep, rule, fi, subject_text):
+    """AST-level companion of the decoder template (runs even when the walker does not model the function): a `Switch` whose subject is
+    a *low slice* of the bus address, `<addr>[:K]` with K other than the address width, compares only those bits; when nothing else in
+    the function tests the address (no other Switch / If / comparison mentions it with a lower bound), the bits from K up are tested
+    nowhere and addresses outside every window alias into the windows.  Returns True when it reported."""
+    import ast as _ast
+    hits = []
+    for n in _ast.walk(fi.node):
+        if isinstance(n, _ast.Call) and isinstance(n.func, _ast.Attribute) and n.func.attr == "Switch" and len(n.args) == 1:
+            a = n.args[0]
+            if isinstance(a, _ast.Subscript) and _ast.unparse(a.value) == subject_text and isinstance(a.slice, _ast.Slice) and \
+                    (a.slice.lower is None or (isinstance(a.slice.lower, _ast.Constant) and a.slice.lower.value == 0)) and \
+                    a.slice.upper is not None and a.slice.step is None:
+                up = _ast.unparse(a.slice.upper)
+                width_names = (subject_text.rsplit(".", 1)[0] + ".addr_width", f"len({subject_text})")
+                if up not in width_names:
+                    hits.append((n, up))
+    if not hits:
+        return False
+    # does anything else look at the upper bits?  <addr>[K:] / <addr> in a comparison, an If or another Switch
+    others = 0
+    for n in _ast.walk(fi.node):
+        if isinstance(n, _ast.Call) and isinstance(n.func, _ast.Attribute) and n.func.attr in ("If", "Elif", "Switch") and n.args and \
+                not any(n is h for h, _ in hits):
+            if any(_ast.unparse(x) == subject_text for x in _ast.walk(n.args[0])):
+                others += 1
+    if others:
+        return False
+    n, up = hits[0]
+    rep.bad(rule, fi.site, f"Switch({subject_text}[:K])",
+            f"the comparators see only the address bits below K = {up[:70]}; the bits from K up to the address width are tested nowhere, so an "
+            "address outside every window that agrees with a window's addresses in the low K bits selects that window (strobes and read "
+            "data for an unassigned address)", line=n.lineno)
+    return True
